@@ -1117,7 +1117,7 @@ def emit_dot_partner(state, d, tier, x, klass='equal', conj=(0, 0)):
     st = _st()
     a = state.pool[x]
     A = a.conj() if conj[0] else a
-    if a.isdiag or a.ndim == 0:
+    if a.isdiag or a.ndim == 0 or getattr(a, 'hidden_hfs', False):
         raise Skip()
     k = d.draw(st.integers(1, min(3, a.ndim)))
     ia = list(d.draw(st.permutations(list(range(a.ndim))))[:k])
@@ -1158,6 +1158,8 @@ def emit_add_partner(state, d, tier, x, klass='equal'):
         js = ELeg(a.legs[0].s, tD).to_json()
         td = draw_diag_desc(d, state.cfg, tier, table={'t': js['t'], 'D': js['D']}, s=a.legs[0].s)
         return [{'op': 'new', 'td': td}]
+    if getattr(a, 'hidden_hfs', False):
+        raise Skip()
     legs = [ELeg(l.s, perturb_table(d, state.sym, tier, l.tD, klass)) for l in a.legs]
     return emit_new_like(state, d, tier, a.tree, legs, n=a.n)
 
@@ -1275,7 +1277,7 @@ def draw_apply(state, step):
                 return step
             for yi, mi in zip(outs, ms):
                 state.pool.append(mi)
-                state.opq.append(opq)
+                state.opq.append(opq or getattr(mi, 'hidden_hfs', False))     # (hidden sub-leg tables: unary operations only, like block() results)
                 state.yp.append(yi)
             return step
         if not (isinstance(r, tuple) and r[0] == 'num'):
@@ -1566,7 +1568,7 @@ def execute_program(prog, on_step=None, observers=True, config=None):
                     raise StepFail('rebase_failed', f'{type(e).__name__}: {e}', k, step)
                 state.pool.append(mi)
                 state.exact.append(False)
-                state.opq.append(_opq_of(state, step))
+                state.opq.append(_opq_of(state, step) or getattr(mi, 'hidden_hfs', False))
                 yp.append(yi)
                 if on_step:
                     on_step(k, step, yi, mi, yp, state)
@@ -1713,6 +1715,13 @@ def rebase(y, state):
     E = z.to_numpy(native=True) if len(zl) else z.to_numpy().reshape(())
     m = MT(state.sym, state.ferm, legs, tree, tuple(y.n), E, False, y.is_complex())
     m.opaque = opaque
+    # a hard-fused leg records the sector tables of its sub-legs; when the blocks of y do not cover them (e.g. rand(legs=...) that
+    # admits no block), the leaf tables read off the unfused tensor are incomplete and partners must not be built against them
+    tabs = []
+    for nl in y.get_legs(native=True):
+        hf = nl.hf
+        tabs += [None] if hf.tree[0] == 1 else [dict(zip(t, D)) for t, D in zip(hf.t, hf.D)]
+    m.hidden_hfs = len(tabs) != len(legs) or any(tab is not None and any(l.tD.get(t) != D for t, D in tab.items()) for tab, l in zip(tabs, legs))
     m.check()
     return m
 
